@@ -23,7 +23,7 @@ PROPS = ["MxlVerif.Props.C04"]
 VARS = ["x", "z"]
 INPUT = {"x": "u", "z": "w"}
 Y0 = {"x": 4.0, "z": 1.0}
-RTOL, ATOL = 1e-6, 1e-7
+RTOL, ATOL = 1e-6, 1e-6  # |a-b| <= 1e-6 * (1 + max|a|,|b|): LSODA runs at rtol = atol = 1e-8 per step
 FINDING_STEADY = "F-C04-2"
 
 
